@@ -290,6 +290,13 @@ func roundtripPlan(sig, tier string) []Unit {
 	for _, h := range idleGapHistories(sig, thorough) {
 		units = append(units, Unit{Opts: def, Mon: mon, Tag: "idle-gap", History: h})
 	}
+	{
+		st := def
+		st.Stats = "ratio"
+		for _, h := range histories(alpha[:8], 2) {
+			units = append(units, Unit{Opts: st, Mon: mon, Tag: "stats-option", History: append(append([]Letter{}, h...), h[0], h[1])})
+		}
+	}
 	// the largest in-domain batches (65,535 parents of each kind), as the first batch of a
 	// stream (always rebuilt at least once) and as a later batch that adds a column
 	for _, k := range []string{"items", "resources", "scopes"} {
@@ -902,6 +909,22 @@ func framingPlan(tier string) []Unit {
 		for _, sig := range sigs() {
 			for _, h := range emptyRequestHistories(sig) {
 				units = append(units, Unit{Opts: def, Mon: mon, Tag: "empty-requests", History: h})
+			}
+		}
+		// payloads of more than a MiB followed by further batches on the same sub-streams, and
+		// the size-statistics option (it reads the sub-stream's output buffer)
+		for _, sig := range sigs() {
+			a := historyAlphabet(sig, false)
+			for _, l := range rampLetters(sig, 30000) {
+				if l.Ramp.Uses != 1 {
+					continue
+				}
+				units = append(units, Unit{Opts: def, Mon: mon, Tag: "large-" + sig, History: fixRamps([]Letter{a[2], l, a[2], l, a[1]})})
+			}
+			st := def
+			st.Stats = "ratio"
+			for _, h := range histories(a[:8], 2) {
+				units = append(units, Unit{Opts: st, Mon: mon, Tag: "stats-option-" + sig, History: append(append([]Letter{}, h...), h[0], h[1])})
 			}
 		}
 		// sub-streams left idle for any number of batches and then used again
